@@ -1092,8 +1092,9 @@ def calculate_cumulant_function(
         if frequency_shifts.shape != decay_amplitudes.shape:
             raise ValueError('Frequency shifts not same shape as decay amplitudes')
 
-    if d == 2 and pulse.basis.btype in ('Pauli', 'GGM'):
-        # Single qubit case. Can use simplified expression
+    if d == 2 and pulse.basis.btype in ('Pauli', 'GGM') and pulse.basis == Basis.pauli(1):
+        # Single qubit case. Can use simplified expression (valid for the
+        # Pauli basis itself, not for any d = 2 basis carrying that label)
         cumulant_function = np.zeros(decay_amplitudes.shape, decay_amplitudes.dtype)
         diag_mask = np.zeros((N, N), dtype=bool)
         diag_mask[1:, 1:] = ~np.eye(N-1, dtype=bool)
